@@ -352,6 +352,84 @@ double sm_ops(double lambda, double A, double rho, double eta, double mz, double
    return r;
 }
 
+namespace {
+uint64_t hash_sm(const gm2calc::SM& sm)
+{
+   H h;
+   h.d(sm.get_alpha_em_0()); h.d(sm.get_alpha_em_mz()); h.d(sm.get_alpha_s_mz()); h.d(sm.get_mh()); h.d(sm.get_mw()); h.d(sm.get_mz());
+   h.a(sm.get_mu()); h.a(sm.get_md()); h.a(sm.get_mv()); h.a(sm.get_ml()); h.a(sm.get_ckm());
+   h.d(sm.get_e_0()); h.d(sm.get_e_mz()); h.d(sm.get_gY()); h.d(sm.get_g2()); h.d(sm.get_g3()); h.d(sm.get_cw()); h.d(sm.get_sw()); h.d(sm.get_v());
+   return h.h;
+}
+struct Lcg { uint64_t s; uint64_t next() { s = s * 6364136223846793005ULL + 1442695040888963407ULL; return s >> 11; } double u() { return (double)(next() & 0xFFFFFFFFFFFFFULL) / 4503599627370496.0; } unsigned below(unsigned n) { return (unsigned)(next() % n); } };
+void sm_random_setter(gm2calc::SM& sm, Lcg& r)
+{
+   switch (r.below(12)) {
+   case 0: sm.set_alpha_em_0(1.0 / (137.0 + r.u())); break;
+   case 1: sm.set_alpha_em_mz(1.0 / (128.0 + r.u())); break;
+   case 2: sm.set_alpha_s_mz(0.11 + 0.02 * r.u()); break;
+   case 3: sm.set_mh(120 + 10 * r.u()); break;
+   case 4: sm.set_mw(80 + r.u()); break;
+   case 5: case 6: sm.set_mz(90.5 + 1.5 * r.u()); break;
+   case 7: sm.set_mu(2, 170 + 6 * r.u()); break;
+   case 8: sm.set_md(2, 4 + 0.5 * r.u()); break;
+   case 9: sm.set_ml(2, 1.7 + 0.1 * r.u()); break;
+   case 10: sm.set_ckm_from_wolfenstein(0.22 + 0.01 * r.u(), 0.8 + 0.05 * r.u(), 0.12 + 0.05 * r.u(), 0.33 + 0.05 * r.u()); break;
+   default: sm.set_ckm_from_angles(0.22 + 0.01 * r.u(), 0.003 + 0.001 * r.u(), 0.04 + 0.002 * r.u(), 1.1 + 0.2 * r.u()); break;
+   }
+}
+double sm_random_getter(const gm2calc::SM& sm, Lcg& r)
+{
+   switch (r.below(9)) {
+   case 0: return sm.get_e_0(); case 1: return sm.get_e_mz(); case 2: return sm.get_gY(); case 3: return sm.get_g2(); case 4: return sm.get_g3();
+   case 5: return sm.get_cw(); case 6: return sm.get_sw(); case 7: return sm.get_v(); default: return fold(sm.get_ckm());
+   }
+}
+} // namespace
+
+uint64_t sm_getters(const gm2calc::SM& sm) { return hash_sm(sm); }
+size_t sizeof_sm() { return sizeof(gm2calc::SM); }
+void destroy(gm2calc::SM* s) { delete s; }
+
+gm2calc::SM* make_shared_sm(uint64_t seed)
+{
+   Lcg r{seed | 1};
+   auto* sm = new gm2calc::SM();
+   const unsigned n = 2 + r.below(6);
+   for (unsigned i = 0; i < n; ++i) sm_random_setter(*sm, r); // setters only: no derived quantity has been asked for yet
+   return sm;
+}
+
+uint64_t sm_history(uint64_t seed, bool* same_as_fresh)
+{
+   Lcg r{seed | 1};
+   gm2calc::SM sm;
+   double sink = 0;
+   const unsigned n = 4 + r.below(14);
+   for (unsigned i = 0; i < n; ++i) { if (r.below(2)) sm_random_setter(sm, r); else sink += sm_random_getter(sm, r); }
+   const uint64_t h1 = hash_sm(sm);
+   // a fresh object with the same final parameter values
+   gm2calc::SM f;
+   f.set_alpha_em_0(sm.get_alpha_em_0()); f.set_alpha_em_mz(sm.get_alpha_em_mz()); f.set_alpha_s_mz(sm.get_alpha_s_mz());
+   f.set_mh(sm.get_mh()); f.set_mw(sm.get_mw()); f.set_mz(sm.get_mz());
+   f.set_mu(sm.get_mu()); f.set_md(sm.get_md()); f.set_mv(sm.get_mv()); f.set_ml(sm.get_ml()); f.set_ckm(sm.get_ckm());
+   const uint64_t h2 = hash_sm(f);
+   if (same_as_fresh) *same_as_fresh = (h1 == h2);
+   (void)sink;
+   return h1;
+}
+
+THDM* make_thdm_with_sm(const ThdmPoint& p, const gm2calc::SM& sm)
+{
+   gm2calc::thdm::Config cfg;
+   cfg.force_output = p.force_output; cfg.running_couplings = p.running_couplings;
+   gm2calc::thdm::Mass_basis b;
+   b.yukawa_type = gm2calc::thdm::int_to_cpp_yukawa_type(p.yukawa_type >= 1 && p.yukawa_type <= 6 ? p.yukawa_type : 2);
+   b.mh = p.mh; b.mH = p.mH; b.mA = p.mA; b.mHp = p.mHp; b.sin_beta_minus_alpha = p.sba; b.lambda_6 = p.l6; b.lambda_7 = p.l7;
+   b.tan_beta = p.tb; b.m122 = p.m122; b.zeta_u = p.zeta_u; b.zeta_d = p.zeta_d; b.zeta_l = p.zeta_l;
+   return new THDM(b, sm, cfg);
+}
+
 uint64_t mutate_mssm(MSSMNoFV_onshell& m, int what, double u)
 {
    // a caller changing ITS OWN model (possibly a copy of a shared one) and recalculating the spectrum
